@@ -213,7 +213,7 @@ Groups == <<
    t |-> {"pos"}],
   [cls |-> "close", sv |-> TRUE,
    fns |-> {"np.allclose", "np.isclose"},
-   t |-> {"nan", "pos", "tol", "tolkw"}],
+   t |-> {"loose", "loosekw", "nan", "pos", "tol", "tolkw"}],
   [cls |-> "aeq", sv |-> TRUE,
    fns |-> {"np.array_equal", "np.array_equiv"},
    t |-> {"pos", "same"}],
@@ -629,6 +629,25 @@ DataOK(cls, dc) == ~(dc = "inf" /\ cls \in LapackCls)
 Aliases == {"S", "V"}
 SpecialDC == {"nan", "inf", "nz"}
 
+\* ---- who carries the units ---------------------------------------------------------------------------------
+\* Handlers reconcile units operand by operand (a bare operand adopts the other operand's units, a dimensionless one is
+\* treated as bare, ...).  WHICH operand carries units must never change the roles or the order in which the operands
+\* reach NumPy.  uc = "N": as the template says; "B1" / "D1": the FIRST array operand the template creates is a bare
+\* ndarray / a dimensionless unyt_array; "BR" / "DR": every array operand AFTER the first is.  Differential like every
+\* catalogue case: the call may be refused (mixed carriers in a merging position), otherwise NumPy's numbers.
+UnitCarriers == {"B1", "D1", "BR", "DR"}
+\* equality tests answer False for operands of different units BY DESIGN (1 km is not a bare 1): there the units are
+\* part of the answer, so mixed carriers are not C06's concern
+UnitAwareCls == {"aeq", "aeq2"}
+\* a method call is "on unyt arrays" when its RECEIVER is one: with a bare receiver the call is NumPy's own method and a
+\* unyt argument only reaches __array_ufunc__ (dtype of ufunc results: C17).  The method classes keep their own
+\* `bare` templates (bare non-receiver operand) and are not crossed with the carrier patterns.
+MethodMultiCls == {"nd.dot", "nd.clip", "nd.searchsorted", "nd.choose", "nd.put", "nd.setitem"}
+CarrierCls == MultiOpCls \ (UnitAwareCls \cup MethodMultiCls)
+\* data class "band" (classes with a tolerance): the second operand lies just outside / just inside the tolerance band
+\* of the first (|a - b| between rtol*|a| and rtol*|b|), equal, and far away - element by element
+BandCls == {"close"}
+
 \* ---- keyword completeness -----------------------------------------------------------------------------
 \* keyword -> non-default value classes (the meaning of mode= / order= is function-specific: harness/c06_templates.py);
 \* a keyword of NumPy's signature (inspect.signature, extracted from the installed NumPy) that is not in this table is
@@ -760,7 +779,9 @@ OwnImpl(fn, fixes) ==
     [] fn = "np.cumprod" -> ""
     [] fn = "np.apply_over_axes" -> ""                                    \* re-implemented, calls func directly
     [] OTHER -> fn
+\* (the forwarding clause is not asked of keyword cases and carrier cases: an injected bare keyword / a bare operand can
+\* remove the last unyt argument, and the call then no longer dispatches to unyt at all)
 C_T(c, o, fixes) ==
   /\ (c.cls \in RefuseCls \/ c.fn \in RefuseFns) => o.ur
-  /\ (~o.ur /\ c.kw = "" /\ c.kind \in {"handled", "default"} /\ OwnImpl(c.fn, fixes) # "") => OwnImpl(c.fn, fixes) \in {o.fwd[j] : j \in 1..Len(o.fwd)}
+  /\ (~o.ur /\ c.kw = "" /\ c.uc = "N" /\ c.kind \in {"handled", "default"} /\ OwnImpl(c.fn, fixes) # "") => OwnImpl(c.fn, fixes) \in {o.fwd[j] : j \in 1..Len(o.fwd)}
 =============================================================================
